@@ -116,7 +116,8 @@ type Coro struct {
 	manual      bool // only runs when the harness says so (vhRun)
 	tried       bool
 	result      Value
-	parked      bool // blocked at a channel operation it has attempted (partner of a rendezvous on an unbuffered channel)
+	sleepCh     ChanVal // one-shot timer channel of a time.Sleep in progress
+	parked      bool    // blocked at a channel operation it has attempted (partner of a rendezvous on an unbuffered channel)
 }
 
 func (c *Coro) clone() *Coro {
